@@ -1041,8 +1041,8 @@ Proof.
   exists r, p; repeat split; auto; try lia. intros W. destruct (S W) as (pivot & S1 & S2).
   assert (Hn : (Z.to_nat p <= length r)%nat) by (unfold len in *; lia).
   exists pivot; split; apply Forall_forall; intros x Hx.
-  - apply (In_firstn_sel a) in Hx; auto. destruct Hx as (k & Hk & ->). apply S1; lia.
-  - apply (In_skipn_sel a) in Hx; auto. destruct Hx as (k & Hk & ->). apply S2; lia.
+  - apply (In_firstn_sel lt a) in Hx; auto. destruct Hx as (k & Hk & ->). apply S1; lia.
+  - apply (In_skipn_sel lt a) in Hx; auto. destruct Hx as (k & Hk & ->). apply S2; lia.
 Qed.
 
 (* -- heap sort, intro sort (every threshold, every depth), sort: irreflexive comparator *)
